@@ -78,12 +78,19 @@ def c_overlap(ctx, args):
     else:
         import vlib.impl_torch as TT
         s, v = TT.STATE(t), TT.STATE(u)
+        b1, b2 = TT.oST(s), TT.oST(v)
         try:
             got = float(s.expect(v))
         except NotImplementedError:
             got = 'NotImplementedError'
         except Exception as e:
             got = 'raised ' + type(e).__name__
+        try:
+            a1, a2 = TT.oST(s), TT.oST(v)
+        except Exception as e:
+            a1, a2 = 'unreadable', 'unreadable'
+        if (a1, a2) != (b1, b2):
+            return {'kind': 'oracle', 'where': 'torch:expect(state) modified an operand', 'observed': [a1, a2], 'expected': [b1, b2]}
     if t[1] != 0:
         return None if got == 'NotImplementedError' else {'kind': 'oracle', 'where': be + ':expect(state) on mixed receiver', 'observed': got, 'expected': 'NotImplementedError'}
     if ctx.model is not None and not ctx.search:
@@ -103,12 +110,17 @@ def c_get_prob(ctx, args):
     n = len(t[0]) // 2
     rho = S.rho(t)
     tot = 0.0
+    # ONE state object answers all 2^n readouts (a query must not disturb the state it is asked about)
+    if be == 'np':
+        obj = NP.STATE(t)
+    else:
+        import torch, vlib.impl_torch as TT
+        obj = TT.STATE(t)
     for bits in itertools.product((0, 1), repeat=n):
         if be == 'np':
-            got = float(NP.STATE(t).get_prob(np.array(bits)))
+            got = float(obj.get_prob(np.array(bits)))
         else:
-            import torch, vlib.impl_torch as TT
-            got = float(TT.STATE(t).get_prob(torch.tensor([float(b) for b in bits])))
+            got = float(obj.get_prob(torch.tensor([float(b) for b in bits])))
         idx = int(''.join(str(b) for b in bits), 2)
         want = rho[idx, idx].real
         if abs(got - want) > 1e-9:
